@@ -2,13 +2,17 @@
 
 package kafka
 
-import "errors"
+import (
+	"errors"
+	"io"
+)
 
 // Helpers of the Conn / Transport-conn event hooks (C.* and T.* events; build tag `verif` only).
 
 // verifMuxErr reduces the outcome of reading a response body to the classes the model knows:
-// "ok", "kafka" (a broker error code: the frame was consumed and the conn stays usable) and "io"
-// (anything else: the conn is closed).
+// "ok", "kafka" (a broker error code: the frame was consumed and the conn stays usable), "short"
+// (io.ErrShortBuffer of Batch.Read: the caller's buffer was too small; Batch.close drains the frame and keeps
+// the conn) and "io" (anything else: the conn is closed).
 func verifMuxErr(err error) string {
 	if err == nil {
 		return "ok"
@@ -16,6 +20,9 @@ func verifMuxErr(err error) string {
 	var k Error
 	if errors.As(err, &k) {
 		return "kafka"
+	}
+	if errors.Is(err, io.ErrShortBuffer) {
+		return "short"
 	}
 	return "io"
 }
